@@ -37,6 +37,18 @@ fn source_node(seed: u64, k: usize) -> BoxedNode {
                         *x = (xs(&mut s) % 101) as f32 / 100.0;
                     }
                 }
+                // "whatever the input values": in half of the seeds some blocks carry a NaN or an infinity
+                if seed & 2 != 0 {
+                    let c = xs(&mut s);
+                    if let Some(b) = o.first_mut() {
+                        match c % 9 {
+                            0 => b[(c / 9) as usize % 64] = f32::NAN,
+                            1 => b[(c / 9) as usize % 64] = f32::INFINITY,
+                            2 => b[(c / 9) as usize % 64] = f32::NEG_INFINITY,
+                            _ => {}
+                        }
+                    }
+                }
             });
             BoxedNode::new(f)
         }
